@@ -15,7 +15,8 @@ def reply_programs(ctx):
             p = spec.gen_program(rng, f"r{b:02d}_{i:02d}", n_ifaces=rng.choice([0, 0, 1]))
             # every data mode appears: rotate forced modes through the corpus
             modes = [spec.DATA_MODES[(k + j) % len(spec.DATA_MODES)] for j in range(3)]
-            spec.gen_reply_table(rng, p, force_modes=modes)
+            # every fourth table stages "known name before new name" in one handlers list, declared before further names
+            spec.gen_reply_table(rng, p, force_modes=modes, stage_merge=(k % 4 == 1))
             progs.append(p)
             k += 1
         out[f"r{b:02d}"] = progs
